@@ -14,3 +14,804 @@ Proof.
   destruct (String.eqb x "-inf") eqn:E3; [apply String.eqb_eq in E3; subst; intros [= <-]; reflexivity|].
   discriminate.
 Qed.
+
+(* ================================================================================================================ *)
+(* transitive_closure: the result is closed under supertype, feature range and element type                         *)
+(* ================================================================================================================ *)
+
+(* the types a type refers to directly: its supertype, and range and element type of every effective feature *)
+Definition type_refs (s : schema) (t : tname) : list tname :=
+  match sch_find s t with
+  | Some ti => (match parent ti with Some p => [p] | None => [] end)
+               ++ flat_map (fun fd => fd_range fd :: match fd_elem fd with Some e => [e] | None => [] end) (ti_feats ti)
+  | None => []
+  end.
+Definition closed_under_refs (s : schema) (r : list tname) : Prop :=
+  forall t u, In t r -> In u (type_refs s t) -> is_predefined u = true \/ In u r.
+
+Lemma memb_false s l : memb s l = false <-> ~ In s l.
+Proof.
+  rewrite <- memb_In. destruct (memb s l); split.
+  - discriminate.
+  - intros H. exfalso. apply H. reflexivity.
+  - intros _ H. discriminate.
+  - reflexivity.
+Qed.
+
+Lemma unvisited_spec vis n u : In u (unvisited vis n) <-> u = n /\ ~ In n vis.
+Proof.
+  unfold unvisited. destruct (memb n vis) eqn:E.
+  - apply memb_In in E. split; [intros []|intros [_ H]; contradiction].
+  - apply memb_false in E. cbn [In]. split; [intros [<-|[]]; auto|intros [-> _]; auto].
+Qed.
+
+Section Closure.
+  Variable s : schema.
+
+  (* what is pushed when t is visited covers every direct reference of t that is not visited *)
+  Lemma pushed_covers t ti vis u : sch_find s t = Some ti -> In u (type_refs s t) -> In u vis \/
+    In u ((match parent ti with Some p => unvisited vis p | None => [] end)
+          ++ flat_map (fun fd => unvisited vis (fd_range fd) ++ match fd_elem fd with Some e => unvisited vis e | None => [] end)
+                      (ti_feats ti)).
+  Proof.
+    intros E Hu. unfold type_refs in Hu. rewrite E in Hu.
+    destruct (memb u vis) eqn:Em; [left; apply memb_In; exact Em|right]. apply memb_false in Em.
+    apply in_app_or in Hu. apply in_or_app. destruct Hu as [Hu|Hu].
+    - left. destruct (parent ti) as [p|]; [|destruct Hu]. destruct Hu as [<-|[]]. apply unvisited_spec. auto.
+    - right. apply in_flat_map in Hu. destruct Hu as (fd & Hfd & Hu). apply in_flat_map. exists fd. split; [exact Hfd|].
+      apply in_or_app. destruct Hu as [<-|Hu]; [left; apply unvisited_spec; auto|right].
+      destruct (fd_elem fd) as [e|]; [|destruct Hu]. destruct Hu as [<-|[]]. apply unvisited_spec. auto.
+  Qed.
+
+  Definition cinv (vis open : list tname) : Prop :=
+    forall t u, In t vis -> In u (type_refs s t) -> is_predefined u = true \/ In u vis \/ In u open.
+
+  Definition cspec (vis open r : list tname) : Prop :=
+    (forall t, In t vis -> In t r) /\
+    (forall u, In u open -> is_predefined u = true \/ In u r) /\
+    (cinv vis open -> closed_under_refs s r) /\
+    ((forall t, In t vis -> is_predefined t = false) -> forall t, In t r -> is_predefined t = false) /\
+    ((forall t, In t vis -> sch_find s t <> None) -> forall t, In t r -> sch_find s t <> None).
+
+  Lemma cspec_done vis : cspec vis [] vis.
+  Proof.
+    unfold cspec. split; [auto|]. split; [intros u []|]. split; [|split; auto].
+    intros I t u Ht Hu. destruct (I t u Ht Hu) as [Hp|[Hv|[]]]; auto.
+  Qed.
+
+  Lemma cspec_skip vis t rest r : (In t vis \/ is_predefined t = true) -> cspec vis rest r -> cspec vis (t :: rest) r.
+  Proof.
+    intros Hs (A & B & C & D & E). unfold cspec. split; [exact A|]. split; [|split; [|split; [exact D|exact E]]].
+    - intros u [<-|Hu]; [destruct Hs as [Hv|Hp]; [right; apply A; exact Hv|left; exact Hp]|apply B; exact Hu].
+    - intros I. apply C. intros x u Hx Hu. destruct (I x u Hx Hu) as [Hp|[Hv|[<-|Ho]]]; auto.
+      destruct Hs as [Hv|Hp]; auto.
+  Qed.
+
+  Lemma tclosure_spec : forall fuel vis open r, tclosure fuel s vis open = Ok r -> cspec vis open r.
+  Proof.
+    induction fuel as [|k IH]; intros vis open r H.
+    - destruct open as [|t rest]; cbn [tclosure] in H; [|discriminate]. inversion H; subst r. apply cspec_done.
+    - destruct open as [|t rest]; cbn [tclosure] in H.
+      { inversion H; subst r. apply cspec_done. }
+      destruct (memb t vis) eqn:Ev.
+      { apply memb_In in Ev. apply cspec_skip; [left; exact Ev|]. apply IH. exact H. }
+      destruct (is_predefined t) eqn:Ep.
+      { apply cspec_skip; [right; exact Ep|]. apply IH. exact H. }
+      destruct (sch_find s t) as [ti|] eqn:Et; [|discriminate].
+      destruct (IH _ _ _ H) as (A & B & C & D & E). unfold cspec. split; [|split; [|split; [|split]]].
+      + intros x Hx. apply A. apply in_or_app. left. exact Hx.
+      + intros u [<-|Hu]; [right; apply A; apply in_or_app; right; left; reflexivity|].
+        apply B. apply in_or_app. left. exact Hu.
+      + intros I. apply C. intros x u Hx Hu. apply in_app_or in Hx. destruct Hx as [Hx|[<-|[]]].
+        * destruct (I x u Hx Hu) as [Hp|[Hv|[<-|Ho]]].
+          -- left. exact Hp.
+          -- right. left. apply in_or_app. left. exact Hv.
+          -- right. left. apply in_or_app. right. left. reflexivity.
+          -- right. right. apply in_or_app. left. exact Ho.
+        * destruct (pushed_covers t ti (vis ++ [t]) u Et Hu) as [Hv|Hn]; [right; left; exact Hv|].
+          right. right. apply in_or_app. right. exact Hn.
+      + intros Hv. apply D. intros x Hx. apply in_app_or in Hx. destruct Hx as [Hx|[<-|[]]]; [apply Hv; exact Hx|exact Ep].
+      + intros Hv. apply E. intros x Hx. apply in_app_or in Hx. destruct Hx as [Hx|[<-|[]]]; [apply Hv; exact Hx|congruence].
+  Qed.
+
+  (* MINIMAL: what transitive_closure returns contains the (non-predefined) seeds, only non-predefined known types,
+     and with every type its supertype and the range and element type of each of its effective features, unless
+     predefined *)
+  Theorem closure_closed : forall fuel seeds r, tclosure fuel s [] seeds = Ok r ->
+    closed_under_refs s r /\
+    (forall t, In t seeds -> is_predefined t = true \/ In t r) /\
+    (forall t, In t r -> is_predefined t = false /\ sch_find s t <> None).
+  Proof.
+    intros fuel seeds r H. destruct (tclosure_spec _ _ _ _ H) as (_ & B & C & D & E).
+    split; [apply C; intros t u []|]. split; [exact B|].
+    intros t Ht. split; [apply D; [intros x []|exact Ht]|apply E; [intros x []|exact Ht]].
+  Qed.
+End Closure.
+
+(* ================================================================================================================ *)
+(* embedded type declarations: what _serialize_type writes, read back by _parse_features, is the original declaration *)
+(* ================================================================================================================ *)
+
+Lemma strip_brackets_app e : strip_brackets (String.append e "[]") = Some e.
+Proof.
+  induction e as [|c r IH]; [reflexivity|].
+  cbn [String.append]. cbn [strip_brackets]. fold (String.append r "[]").
+  destruct (String.eqb (String c (String.append r "[]")) "[]") eqn:E.
+  - apply String.eqb_eq in E. exfalso. injection E as Hc Hr. destruct r as [|c2 r2]; cbn in Hr; [discriminate|].
+    injection Hr as _ H2. destruct r2; cbn in H2; discriminate.
+  - rewrite IH. reflexivity.
+Qed.
+
+Lemma starts_pct x : name_okb x = true -> starts_with "%" x = false.
+Proof.
+  destruct x as [|c r]; [discriminate|]. cbn [name_okb starts_with].
+  destruct (Ascii.eqb "%" c) eqn:E; [|reflexivity]. apply Ascii.eqb_eq in E. subst c. discriminate.
+Qed.
+
+(* the declaration of a feature as it stands in %TYPES *)
+Definition jfeat_of (fd : fdecl) : jfeat :=
+  mkJf (fd_xname fd) (range_name fd)
+       (if is_array_name (fd_range fd) then None else option_map ext_name (fd_elem fd))
+       (if fd_multi fd then Some true else None).
+
+Lemma parse_ser_feature fd : parse_jfeat (ser_feature fd) = Ok (jfeat_of fd).
+Proof.
+  unfold ser_feature, parse_jfeat, jfeat_of. cbn [fst snd].
+  destruct (fd_multi fd); destruct (is_array_name (fd_range fd)); destruct (fd_elem fd); reflexivity.
+Qed.
+
+(* a feature declaration the JSON type section can express faithfully *)
+Definition fd_okb (fd : fdecl) : bool :=
+  name_okb (fd_xname fd) && String.eqb (fd_name fd) (pyname (fd_xname fd))
+  && String.eqb (ext_name (fd_range fd)) (fd_range fd)
+  && match fd_elem fd with Some e => String.eqb (ext_name e) e | None => true end
+  && (if is_array_name (fd_range fd) then
+        if is_prim_array_name (fd_range fd) then match fd_elem fd with None => true | Some _ => false end
+        else match fd_elem fd with Some e => String.eqb (array_type_name_for e) T_FS_ARRAY | None => true end
+      else match strip_brackets (fd_range fd) with None => true | Some _ => false end).
+(* an FSArray feature without element type comes back with element type TOP *)
+Definition norm_fd (fd : fdecl) : fdecl :=
+  if String.eqb (fd_range fd) T_FS_ARRAY then
+    match fd_elem fd with None => mkFd (fd_name fd) (fd_xname fd) (fd_range fd) (Some T_TOP) (fd_multi fd) | Some _ => fd end
+  else fd.
+
+Lemma prim_array_cases r : is_prim_array_name r = true ->
+  array_type_name_for (element_type_name_for r) = r /\ String.eqb r T_FS_ARRAY = false.
+Proof.
+  unfold is_prim_array_name. intros H. apply memb_In in H. cbn in H.
+  repeat (destruct H as [<-|H]; [split; reflexivity|]). destruct H.
+Qed.
+
+Lemma jdecl_roundtrip fd : fd_okb fd = true -> jdecl_of (jfeat_of fd) = norm_fd fd.
+Proof.
+  unfold fd_okb. rewrite !andb_true_iff. intros ((((Hn & Hpy) & Hr) & He) & Hk).
+  apply String.eqb_eq in Hpy, Hr.
+  unfold jdecl_of, jrange, jfeat_of, norm_fd, range_name. cbn [jf_name jf_range jf_elem jf_multi].
+  destruct fd as [n x r e m]. cbn [fd_name fd_xname fd_range fd_elem fd_multi] in *. subst n.
+  assert (Hm : match (if m then Some true else None) with Some true => true | _ => false end = m) by (destruct m; reflexivity).
+  rewrite Hm. unfold is_array_name in *.
+  destruct (is_prim_array_name r) eqn:Ep.
+  - cbn [orb] in *. destruct e; [discriminate|]. rewrite strip_brackets_app. cbn [fst snd].
+    destruct (prim_array_cases r Ep) as [Ha Hf]. rewrite Ha, Ep, Hf. reflexivity.
+  - cbn [orb] in *. destruct (String.eqb r T_FS_ARRAY) eqn:Ef.
+    + apply String.eqb_eq in Ef. subst r. rewrite strip_brackets_app. cbn [fst snd].
+      destruct e as [e|].
+      * apply String.eqb_eq in He, Hk. rewrite He, Hk. reflexivity.
+      * reflexivity.
+    + rewrite Hr. destruct (strip_brackets r); [discriminate|]. cbn [fst snd].
+      destruct e as [e|]; [apply String.eqb_eq in He; cbn [option_map]; rewrite He|]; reflexivity.
+Qed.
+
+Lemma mapM_map {A B C} (f : A -> B) (g : B -> res C) (h : A -> C) l :
+  (forall a, In a l -> g (f a) = Ok (h a)) -> mapM g (map f l) = Ok (map h l).
+Proof.
+  induction l as [|a r IH]; intros H; [reflexivity|]. cbn [map mapM]. rewrite (H a (or_introl eq_refl)). cbn [bind].
+  rewrite IH; [reflexivity|]. intros b Hb. apply H. right. exact Hb.
+Qed.
+
+Lemma filter_pct l : Forall (fun fd => name_okb (fd_xname fd) = true) l ->
+  filter (fun kv : string * json => negb (starts_with "%" (fst kv))) (map ser_feature l) = map ser_feature l.
+Proof.
+  induction 1 as [|fd r Hfd _ IH]; [reflexivity|]. cbn [map filter]. unfold ser_feature at 1. cbn [fst].
+  rewrite (starts_pct _ Hfd). cbn [negb]. f_equal. exact IH.
+Qed.
+
+(* a type declaration as it stands in %TYPES *)
+Definition jtype_of (s : schema) (ti : tinfo) : jtype :=
+  mkJt (ext_name (ti_name ti)) (match parent ti with Some p => ext_name p | None => "" end) (map jfeat_of (own_feats s ti)).
+
+Lemma parse_ser_type s ti : Forall (fun fd => name_okb (fd_xname fd) = true) (own_feats s ti) ->
+  parse_jtype (ser_type s ti) = Ok (jtype_of s ti).
+Proof.
+  intros Hn. unfold ser_type, parse_jtype, jtype_of. cbn [fst snd].
+  change (alookup "%SUPER_TYPE" ([("%NAME", JStr (ext_name (ti_name ti)));
+            ("%SUPER_TYPE", JStr match parent ti with Some p => ext_name p | None => "" end)] ++ map ser_feature (own_feats s ti)))
+    with (Some (JStr match parent ti with Some p => ext_name p | None => "" end)).
+  cbn [app filter fst].
+  change (starts_with "%" "%NAME") with true. change (starts_with "%" "%SUPER_TYPE") with true. cbn [negb].
+  rewrite (filter_pct _ Hn). rewrite (mapM_map ser_feature parse_jfeat jfeat_of); [reflexivity|].
+  intros fd _. apply parse_ser_feature.
+Qed.
+
+(* ---- which types are declared ---- *)
+
+Definition schema_okb (s : schema) : bool :=
+  forallb (fun ti => String.eqb (ext_name (ti_name ti)) (ti_name ti)
+                     && match parent ti with Some p => String.eqb (ext_name p) p | None => true end
+                     && forallb fd_okb (ti_feats ti)) s.
+
+(* %TYPES declares t with the original supertype and, for each own feature, the original range, element type (TOP for
+   an FSArray without one) and multipleReferencesAllowed truth value *)
+Definition declared (s : schema) (decls : list (string * json)) (t : tname) : Prop :=
+  exists ti j jt, sch_find s t = Some ti /\ alookup t decls = Some j /\ parse_jtype (t, j) = Ok jt /\
+    jt_name jt = t /\ jt_super jt = match parent ti with Some p => p | None => "" end /\
+    map jdecl_of (jt_feats jt) = map norm_fd (own_feats s ti).
+
+Lemma sch_find_name s n ti : sch_find s n = Some ti -> ti_name ti = n /\ In ti s.
+Proof.
+  induction s as [|t r IH]; cbn [sch_find]; [discriminate|].
+  destruct (String.eqb n (ti_name t)) eqn:E.
+  - intros [= <-]. apply String.eqb_eq in E. split; [symmetry; exact E|left; reflexivity].
+  - intros H. destruct (IH H) as [A B]. split; [exact A|right; exact B].
+Qed.
+Lemma sch_find_In s n : In n (map ti_name s) -> sch_find s n <> None.
+Proof.
+  induction s as [|t r IH]; cbn [map In sch_find]; [intros []|].
+  intros [<-|H]; [rewrite String.eqb_refl; discriminate|]. destruct (String.eqb n (ti_name t)); [discriminate|auto].
+Qed.
+
+Lemma sinsert_In x y l : In x (sinsert y l) <-> x = y \/ In x l.
+Proof.
+  induction l as [|z r IH]; cbn [sinsert In]; [intuition|].
+  destruct (String.leb y z); cbn [In]; [intuition|]. rewrite IH. intuition.
+Qed.
+Lemma sort_names_In x l : In x (sort_names l) <-> In x l.
+Proof.
+  induction l as [|y r IH]; cbn [sort_names fold_right In]; [tauto|].
+  fold (sort_names r). rewrite sinsert_In, IH. intuition.
+Qed.
+
+Lemma mapM_Forall2 {A B} (f : A -> res B) l : forall r, mapM f l = Ok r -> Forall2 (fun a b => f a = Ok b) l r.
+Proof.
+  induction l as [|a t IH]; cbn [mapM]; intros r H; [inversion H; constructor|].
+  destruct (f a) as [b| |] eqn:E; cbn [bind] in H; try discriminate.
+  destruct (mapM f t) as [bs| |] eqn:E2; cbn [bind] in H; try discriminate.
+  inversion H; subst r. constructor; [exact E|apply IH; reflexivity].
+Qed.
+Lemma Forall2_In_l {A B} (R : A -> B -> Prop) l r a : Forall2 R l r -> In a l -> exists b, In b r /\ R a b.
+Proof.
+  induction 1 as [|x y l r Hxy _ IH]; [intros []|]. intros [<-|H]; [exists y; split; [left; reflexivity|exact Hxy]|].
+  destruct (IH H) as (b & Hb & Rb). exists b. split; [right; exact Hb|exact Rb].
+Qed.
+Lemma Forall2_In_r {A B} (R : A -> B -> Prop) l r b : Forall2 R l r -> In b r -> exists a, In a l /\ R a b.
+Proof.
+  induction 1 as [|x y l r Hxy _ IH]; [intros []|]. intros [<-|H]; [exists x; split; [left; reflexivity|exact Hxy]|].
+  destruct (IH H) as (a & Ha & Ra). exists a. split; [right; exact Ha|exact Ra].
+Qed.
+
+Lemma alookup_map_first {X V} (key : X -> string) (val : X -> V) t a : forall l,
+  In a l -> key a = t -> (forall x, In x l -> key x = t -> x = a) ->
+  alookup t (map (fun x => (key x, val x)) l) = Some (val a).
+Proof.
+  induction l as [|x r IH]; [intros []|]. intros Hin Hk Hu. cbn [map alookup].
+  destruct (String.eqb t (key x)) eqn:E.
+  - apply String.eqb_eq in E. rewrite (Hu x (or_introl eq_refl) (eq_sym E)). reflexivity.
+  - destruct Hin as [->|Hin]; [rewrite Hk, String.eqb_refl in E; discriminate|].
+    apply IH; [exact Hin|exact Hk|]. intros y Hy. apply Hu. right. exact Hy.
+Qed.
+
+Definition find_ti (s : schema) (n : tname) : res tinfo :=
+  match sch_find s n with Some ti => Ok ti | None => Err ETypeNotFound end.
+
+Lemma ser_types_inv s mode used decls : ser_types s mode used = Ok [(K_TYPES, JObj decls)] ->
+  exists names tis, types_to_include s mode used = Ok names /\ mapM (find_ti s) (sort_names names) = Ok tis /\
+    decls = map (ser_type s) (filter (fun ti => negb (docann_default s ti)) tis) /\ mode <> MNone.
+Proof.
+  unfold ser_types. intros H.
+  destruct mode; try discriminate;
+  (destruct (types_to_include s _ used) as [names| |] eqn:En; cbn [bind] in H; try discriminate;
+   fold (find_ti s) in H;
+   destruct (mapM (find_ti s) (sort_names names)) as [tis| |] eqn:Et; cbn [bind] in H; try discriminate;
+   inversion H; subst decls; exists names, tis; split; [first [exact En|reflexivity]|split; [first [exact Et|reflexivity]|split; [reflexivity|discriminate]]]).
+Qed.
+
+Lemma included_declared s decls names tis t ti :
+  schema_okb s = true ->
+  mapM (find_ti s) (sort_names names) = Ok tis ->
+  decls = map (ser_type s) (filter (fun ti => negb (docann_default s ti)) tis) ->
+  In t names -> sch_find s t = Some ti -> docann_default s ti = false -> declared s decls t.
+Proof.
+  intros Hok Ht -> Hin Hf Hd.
+  pose proof (mapM_Forall2 _ _ _ Ht) as F2.
+  assert (Hall : forall x, In x tis -> exists n, sch_find s n = Some x).
+  { intros x Hx. destruct (Forall2_In_r _ _ _ _ F2 Hx) as (n & _ & Hn). unfold find_ti in Hn.
+    destruct (sch_find s n) eqn:E; inversion Hn; subst. exists n. exact E. }
+  assert (Hti : In ti tis).
+  { destruct (Forall2_In_l _ _ _ t F2 (proj2 (sort_names_In _ _) Hin)) as (b & Hb & Rb).
+    unfold find_ti in Rb. rewrite Hf in Rb. inversion Rb; subst b. exact Hb. }
+  destruct (sch_find_name _ _ _ Hf) as [Hname Hins].
+  unfold schema_okb in Hok. rewrite forallb_forall in Hok. pose proof (Hok _ Hins) as Hk.
+  rewrite !andb_true_iff in Hk. destruct Hk as ((Hext & Hpar) & Hfds). apply String.eqb_eq in Hext.
+  rewrite forallb_forall in Hfds.
+  assert (Hown : forall fd, In fd (own_feats s ti) -> fd_okb fd = true).
+  { intros fd Hfd. apply Hfds. unfold own_feats in Hfd. destruct (parent ti); [apply filter_In in Hfd; tauto|exact Hfd]. }
+  exists ti, (snd (ser_type s ti)), (jtype_of s ti). split; [exact Hf|]. split; [|split; [|split; [|split]]].
+  - assert (Hkey : forall x, In x tis -> ext_name (ti_name x) = ti_name x).
+    { intros x Hx. destruct (Hall x Hx) as (n & Hn). destruct (sch_find_name _ _ _ Hn) as [_ Hxs].
+      pose proof (Hok _ Hxs) as Hk. rewrite !andb_true_iff in Hk. destruct Hk as ((Hk & _) & _). apply String.eqb_eq in Hk. exact Hk. }
+    rewrite (map_ext (ser_type s) (fun x => (fst (ser_type s x), snd (ser_type s x))))
+      by (intros x; destruct (ser_type s x); reflexivity).
+    apply (alookup_map_first (fun x => fst (ser_type s x)) (fun x => snd (ser_type s x)) t ti).
+    + apply filter_In. split; [exact Hti|rewrite Hd; reflexivity].
+    + unfold ser_type. cbn [fst]. rewrite Hext. exact Hname.
+    + intros x Hx Hkx. apply filter_In in Hx. destruct Hx as [Hx _]. unfold ser_type in Hkx. cbn [fst] in Hkx.
+      rewrite (Hkey x Hx) in Hkx. destruct (Hall x Hx) as (n & Hn). destruct (sch_find_name _ _ _ Hn) as [Hnn _].
+      rewrite Hkx in Hnn. subst n. rewrite Hf in Hn. inversion Hn. reflexivity.
+  - assert (E : (t, snd (ser_type s ti)) = ser_type s ti).
+    { unfold ser_type. cbn [snd]. rewrite Hext, Hname. reflexivity. }
+    transitivity (parse_jtype (ser_type s ti)); [f_equal; exact E|]. apply parse_ser_type. apply Forall_forall. intros fd Hfd. pose proof (Hown fd Hfd) as Hk.
+    unfold fd_okb in Hk. rewrite !andb_true_iff in Hk. tauto.
+  - unfold jtype_of. cbn [jt_name]. rewrite Hext. exact Hname.
+  - unfold jtype_of. cbn [jt_super]. destruct (parent ti) as [p|]; [apply String.eqb_eq in Hpar; exact Hpar|reflexivity].
+  - unfold jtype_of. cbn [jt_feats]. rewrite map_map. apply map_ext_in. intros fd Hfd. apply jdecl_roundtrip. apply Hown. exact Hfd.
+Qed.
+
+(* MINIMAL: the declared types contain every used type and are closed under supertype / feature range / element type
+   (predefined types, which every reader has, apart); each carries its original declaration *)
+Theorem embedded_ts_sufficient_minimal s used decls :
+  schema_okb s = true -> ser_types s MMinimal used = Ok [(K_TYPES, JObj decls)] ->
+  exists names,
+    (forall t, In t used -> is_predefined t = true \/ In t names) /\
+    closed_under_refs s names /\
+    (forall t, In t names -> exists ti, sch_find s t = Some ti /\ (docann_default s ti = true \/ declared s decls t)).
+Proof.
+  intros Hok H. destruct (ser_types_inv _ _ _ _ H) as (names & tis & Hn & Ht & Hd & _).
+  cbn [types_to_include] in Hn. destruct (closure_closed _ _ _ _ Hn) as (Hc & Hs & Hr).
+  exists names. split; [exact Hs|]. split; [exact Hc|].
+  intros t Hin. destruct (Hr t Hin) as [_ Hf]. destruct (sch_find s t) as [ti|] eqn:E; [|congruence].
+  exists ti. split; [reflexivity|]. destruct (docann_default s ti) eqn:Ed; [left; reflexivity|right].
+  eapply included_declared; eassumption.
+Qed.
+
+(* FULL: every type of the type system that is not predefined carries its original declaration *)
+Theorem embedded_ts_sufficient_full s used decls :
+  schema_okb s = true -> ser_types s MFull used = Ok [(K_TYPES, JObj decls)] ->
+  forall t ti, sch_find s t = Some ti -> is_predefined t = false -> docann_default s ti = true \/ declared s decls t.
+Proof.
+  intros Hok H t ti Hf Hp. destruct (ser_types_inv _ _ _ _ H) as (names & tis & Hn & Ht & Hd & _).
+  cbn [types_to_include] in Hn. inversion Hn; subst names; clear Hn.
+  destruct (docann_default s ti) eqn:Ed; [left; reflexivity|right].
+  eapply included_declared; try eassumption.
+  apply filter_In. split; [|rewrite Hp; reflexivity].
+  destruct (sch_find_name _ _ _ Hf) as [<- Hin]. apply in_map. exact Hin.
+Qed.
+
+(* ================================================================================================================ *)
+(* denote (save c) = canon c' : generic list / lookup lemmas                                                         *)
+(* ================================================================================================================ *)
+
+Lemma alookup_app {V} k (a b : list (string * V)) :
+  alookup k (a ++ b) = match alookup k a with Some v => Some v | None => alookup k b end.
+Proof.
+  induction a as [|[k' v'] r IH]; [reflexivity|]. cbn [app alookup]. destruct (String.eqb k k'); [reflexivity|exact IH].
+Qed.
+Lemma alookup_notin {V} k (l : list (string * V)) : (forall k' v, In (k', v) l -> k' <> k) -> alookup k l = None.
+Proof.
+  induction l as [|[k' v'] r IH]; intros H; [reflexivity|]. cbn [alookup].
+  destruct (String.eqb k k') eqn:E.
+  - apply String.eqb_eq in E. exfalso. apply (H k' v'); [left; reflexivity|auto].
+  - apply IH. intros k2 v2 Hin. apply (H k2 v2). right. exact Hin.
+Qed.
+Lemma mapM_app {A B} (f : A -> res B) (a b : list A) :
+  mapM f (a ++ b) = do x <- mapM f a ;; do y <- mapM f b ;; Ok (x ++ y).
+Proof.
+  induction a as [|x r IH]; cbn [app mapM bind].
+  - destruct (mapM f b); reflexivity.
+  - destruct (f x); cbn [bind]; try reflexivity. rewrite IH. destruct (mapM f r); cbn [bind]; try reflexivity.
+    destruct (mapM f b); reflexivity.
+Qed.
+Lemma mapM_ok_map {A B} (f : A -> res B) (g : A -> B) l : (forall a, In a l -> f a = Ok (g a)) -> mapM f l = Ok (map g l).
+Proof.
+  intros H. rewrite <- (map_id l) at 1. apply (mapM_map (fun a => a) f g). exact H.
+Qed.
+(* decoding what was encoded, element by element *)
+Lemma mapM_compose {A B C} (enc : A -> res B) (den : B -> res C) (cv : A -> res C) :
+  (forall a j, enc a = Ok j -> den j = cv a) -> forall l js, mapM enc l = Ok js -> mapM den js = mapM cv l.
+Proof.
+  intros H. induction l as [|a r IH]; cbn [mapM]; intros js E; [inversion E; reflexivity|].
+  destruct (enc a) as [j| |] eqn:Ea; cbn [bind] in E; try discriminate.
+  destruct (mapM enc r) as [js'| |] eqn:Er; cbn [bind] in E; try discriminate.
+  inversion E; subst js. cbn [mapM]. rewrite (H a j Ea), (IH js' eq_refl). reflexivity.
+Qed.
+Lemma mapM_length {A B} (f : A -> res B) l : forall r, mapM f l = Ok r -> List.length r = List.length l.
+Proof.
+  induction l as [|a t IH]; cbn [mapM]; intros r H; [inversion H; reflexivity|].
+  destruct (f a); cbn [bind] in H; try discriminate. destruct (mapM f t) eqn:E; cbn [bind] in H; try discriminate.
+  inversion H. cbn [List.length]. f_equal. apply IH. reflexivity.
+Qed.
+
+Lemma string_cons_neq c x : String c x <> x.
+Proof. revert c. induction x as [|d r IH]; intros c H; [discriminate|]. injection H as _ H. exact (IH d H). Qed.
+Lemma refkey_neq x : String.eqb (refkey x) x = false.
+Proof. apply String.eqb_neq. apply string_cons_neq. Qed.
+Lemma numkey_neq x : String.eqb (numkey x) x = false.
+Proof. apply String.eqb_neq. apply string_cons_neq. Qed.
+Lemma ref_num_neq x y : String.eqb (refkey x) (numkey y) = false.
+Proof. apply String.eqb_neq. intros H. discriminate H. Qed.
+Lemma num_ref_neq x y : String.eqb (numkey x) (refkey y) = false.
+Proof. apply String.eqb_neq. intros H. discriminate H. Qed.
+Lemma name_ok_first x : name_okb x = true -> forall y, x <> refkey y /\ x <> numkey y /\ x <> K_ID /\ x <> K_TYPE /\ x <> K_ELEMENTS.
+Proof.
+  intros H y. destruct x as [|c r]; [discriminate|]. cbn [name_okb] in H.
+  repeat split; intros E; inversion E; subst c; discriminate.
+Qed.
+
+(* ---- values ---- *)
+
+Lemma den_prim_plain c v j : plain_json v = Ok j -> den_prim j = cv_atom c v.
+Proof.
+  destruct v; cbn [plain_json]; try discriminate; try (intros [= <-]; reflexivity).
+  destruct (special_flt x); [discriminate|]. intros [= <-]. reflexivity.
+Qed.
+Lemma den_ref_ref c v j : ref_json c v = Ok j -> den_ref j = cv_atom c v.
+Proof.
+  unfold ref_json. destruct v; cbn [ref_id bind cv_atom]; try discriminate.
+  - intros [= <-]. reflexivity.
+  - destruct (hget (c_heap c) o) as [f|]; cbn [bind]; [|discriminate]. intros [= <-]. destruct (o_id f); reflexivity.
+  - destruct (find_sofa c n) as [sf|]; cbn [bind]; [|discriminate]. intros [= <-]. reflexivity.
+Qed.
+Lemma den_special_float c v j : (match v with VFlt _ => True | _ => False end) -> float_json v = Ok j -> den_special j = cv_atom c v.
+Proof.
+  destruct v; intros []. cbn [float_json]. intros [= <-]. cbn [cv_atom].
+  destruct (special_flt x) as [sp|] eqn:E; [apply special_flt_spec; exact E|reflexivity].
+Qed.
+Lemma cv_ok_plain c v j : plain_json v = Ok j -> exists w, cv_atom c v = Ok w.
+Proof. destruct v; cbn [plain_json cv_atom]; try discriminate; intros _; eexists; reflexivity. Qed.
+Lemma cv_ok_ref c v j : ref_json c v = Ok j -> exists w, cv_atom c v = Ok w.
+Proof.
+  unfold ref_json. destruct v; cbn [ref_id cv_atom bind]; try discriminate.
+  - intros _. eexists. reflexivity.
+  - destruct (hget (c_heap c) o); cbn [bind]; [|discriminate]. intros _. eexists. reflexivity.
+  - destruct (find_sofa c n); cbn [bind]; [|discriminate]. intros _. eexists. reflexivity.
+Qed.
+Lemma mapM_compose_ok {A B C} (enc : A -> res B) (den : B -> res C) (cv : A -> res C) :
+  (forall a j, enc a = Ok j -> den j = cv a /\ exists w, cv a = Ok w) ->
+  forall l js, mapM enc l = Ok js -> exists ws, mapM den js = Ok ws /\ mapM cv l = Ok ws.
+Proof.
+  intros H. induction l as [|a r IH]; cbn [mapM]; intros js E; [inversion E; exists []; split; reflexivity|].
+  destruct (enc a) as [j| |] eqn:Ea; cbn [bind] in E; try discriminate.
+  destruct (mapM enc r) as [js'| |] eqn:Er; cbn [bind] in E; try discriminate.
+  inversion E; subst js. destruct (H a j Ea) as (Hd & w & Hw). destruct (IH js' eq_refl) as (ws & A1 & A2).
+  exists (w :: ws). cbn [mapM]. rewrite Hd, Hw, A1, A2. split; reflexivity.
+Qed.
+
+Lemma byte_of_cv c l bs : mapM byte_of l = Ok bs -> mapM (cv_atom c) l = Ok (map CInt bs) /\ bytes_okb bs = true.
+Proof.
+  revert bs. induction l as [|v r IH]; cbn [mapM]; intros bs H; [inversion H; split; reflexivity|].
+  destruct (byte_of v) as [z| |] eqn:Ev; cbn [bind] in H; try discriminate.
+  destruct (mapM byte_of r) as [zs| |] eqn:Er; cbn [bind] in H; try discriminate. inversion H; subst bs.
+  destruct (IH zs eq_refl) as [A B]. unfold byte_of in Ev. destruct v; try discriminate.
+  destruct (byte_okb z0) eqn:Eb; [|discriminate]. inversion Ev; subst z0.
+  cbn [cv_atom bind map]. rewrite A. cbn [bind bytes_okb forallb]. fold (bytes_okb zs). rewrite Eb, B. split; reflexivity.
+Qed.
+
+(* %ELEMENTS of an array: decoding the encoding gives the canonical elements *)
+Lemma elements_roundtrip L c t l j : lex_ok L -> l <> [] ->
+  (String.eqb t T_FLOAT_ARRAY || String.eqb t T_DOUBLE_ARRAY = true -> forallb (fun v => match v with VFlt _ => true | _ => false end) l = true) ->
+  enc_elements L c t l = Ok j -> exists els, den_elements L t (Some j) = Ok els /\ cv_json c (VList l) = Ok (CColl "" els).
+Proof.
+  intros (_ & Hb64 & Hne) Hl Hfl. unfold enc_elements. cbn [cv_json].
+  destruct (String.eqb t T_BYTE_ARRAY) eqn:Eb.
+  - destruct (mapM byte_of l) as [bs| |] eqn:Em; cbn [bind]; try discriminate. intros [= <-].
+    destruct (byte_of_cv c l bs Em) as [Hcv Hok]. rewrite Hcv. cbn [bind]. exists (map CInt bs). split; [|reflexivity].
+    unfold den_elements. rewrite Eb.
+    destruct (b64_enc L bs) as [|a r] eqn:Ee.
+    + apply Hne in Ee. subst bs. destruct l; [congruence|]. apply mapM_length in Em. discriminate.
+    + rewrite <- Ee, (Hb64 bs Hok). reflexivity.
+  - assert (Hden : forall js, js <> [] -> den_elements L t (Some (JArr js)) =
+              if String.eqb t T_FLOAT_ARRAY || String.eqb t T_DOUBLE_ARRAY then mapM den_special js
+              else if String.eqb t T_FS_ARRAY then mapM den_ref js else mapM den_prim js).
+    { intros js Hjs. unfold den_elements. rewrite Eb. destruct js; [congruence|reflexivity]. }
+    assert (Hnn : forall (f : val -> res json) js, mapM f l = Ok js -> js <> []).
+    { intros f js E Hn. subst js. apply mapM_length in E. destruct l; [congruence|discriminate]. }
+    replace (String.eqb t T_DOUBLE_ARRAY || String.eqb t T_FLOAT_ARRAY) with (String.eqb t T_FLOAT_ARRAY || String.eqb t T_DOUBLE_ARRAY)
+      by apply orb_comm.
+    destruct (String.eqb t T_FLOAT_ARRAY || String.eqb t T_DOUBLE_ARRAY) eqn:Ef.
+    + destruct (mapM float_json l) as [js| |] eqn:Em; cbn [bind]; try discriminate. intros [= <-].
+      rewrite (Hden js (Hnn _ _ Em)); try rewrite Ef.
+      specialize (Hfl eq_refl). rewrite forallb_forall in Hfl.
+      assert (E : exists ws, mapM den_special js = Ok ws /\ mapM (cv_atom c) l = Ok ws).
+      { clear Hden Hnn Hl. revert js Em. induction l as [|v r IH]; cbn [mapM]; intros js E; [inversion E; exists []; split; reflexivity|].
+        destruct (float_json v) as [j| |] eqn:Ev; cbn [bind] in E; try discriminate.
+        destruct (mapM float_json r) as [js'| |] eqn:Er; cbn [bind] in E; try discriminate. inversion E; subst js.
+        pose proof (Hfl v (or_introl eq_refl)) as Hv. destruct v; try discriminate.
+        destruct (IH (fun x Hx => Hfl x (or_intror Hx)) js' eq_refl) as (ws & A1 & A2).
+        exists (CFlt x :: ws). cbn [mapM]. rewrite (den_special_float c (VFlt x) j I Ev). cbn [cv_atom bind]. rewrite A1, A2. split; reflexivity. }
+      destruct E as (ws & A1 & A2). rewrite A1, A2. exists ws. split; reflexivity.
+    + destruct (String.eqb t T_FS_ARRAY) eqn:Ea.
+      * destruct (mapM (ref_json c) l) as [js| |] eqn:Em; cbn [bind]; try discriminate. intros [= <-].
+        rewrite (Hden js (Hnn _ _ Em)); try rewrite Ef; try rewrite Ea.
+        destruct (mapM_compose_ok (ref_json c) den_ref (cv_atom c) (fun a j H => conj (den_ref_ref c a j H) (cv_ok_ref c a j H)) l js Em)
+          as (ws & A1 & A2). rewrite A1, A2. exists ws. split; reflexivity.
+      * destruct (mapM plain_json l) as [js| |] eqn:Em; cbn [bind]; try discriminate. intros [= <-].
+        rewrite (Hden js (Hnn _ _ Em)); try rewrite Ef; try rewrite Ea.
+        destruct (mapM_compose_ok plain_json den_prim (cv_atom c) (fun a j H => conj (den_prim_plain c a j H) (cv_ok_plain c a j H)) l js Em)
+          as (ws & A1 & A2). rewrite A1, A2. exists ws. split; reflexivity.
+Qed.
+
+(* ---- one feature of a non-array structure ---- *)
+
+Definition keyset_only (ms : list (string * json)) (x : string) : Prop :=
+  forall k v, In (k, v) ms -> k = x \/ k = refkey x \/ k = numkey x.
+
+Lemma den_feature_single_plain fd j : den_feature [(fd_xname fd, j)] fd = do v <- den_prim j ;; Ok (fd_xname fd, v).
+Proof. unfold den_feature. cbn [alookup]. rewrite refkey_neq, numkey_neq, String.eqb_refl. reflexivity. Qed.
+Lemma den_feature_single_ref fd j : den_feature [(refkey (fd_xname fd), j)] fd = do v <- den_ref j ;; Ok (fd_xname fd, v).
+Proof. unfold den_feature. cbn [alookup]. rewrite String.eqb_refl. reflexivity. Qed.
+Lemma den_feature_single_num fd j : den_feature [(numkey (fd_xname fd), j)] fd = do v <- den_special j ;; Ok (fd_xname fd, v).
+Proof. unfold den_feature. cbn [alookup]. rewrite ref_num_neq, String.eqb_refl. reflexivity. Qed.
+
+Lemma enc_value_den c s fd v1 ms : is_vnone v1 = false -> enc_value c s fd v1 = Ok ms ->
+  keyset_only ms (fd_xname fd) /\ exists w, cv_atom c v1 = Ok w /\ den_feature ms fd = Ok (fd_xname fd, w).
+Proof.
+  intros Hn. unfold enc_value.
+  destruct (String.eqb (fd_range fd) T_FLOAT || String.eqb (fd_range fd) T_DOUBLE).
+  - destruct v1; try discriminate.
+    + intros [= <-]. split; [intros k v [[= <- <-]|[]]; auto|]. exists (CInt z). split; [reflexivity|].
+      rewrite den_feature_single_plain. reflexivity.
+    + destruct (special_flt x) as [sp|] eqn:E; intros [= <-].
+      * split; [intros k v [[= <- <-]|[]]; auto|]. exists (CFlt x). split; [reflexivity|].
+        rewrite den_feature_single_num, (special_flt_spec _ _ E). reflexivity.
+      * split; [intros k v [[= <- <-]|[]]; auto|]. exists (CFlt x). split; [reflexivity|].
+        rewrite den_feature_single_plain. reflexivity.
+  - destruct (is_primitive s (fd_range fd)).
+    + destruct (plain_json v1) as [j| |] eqn:E; cbn [bind]; try discriminate. intros [= <-].
+      split; [intros k v [[= <- <-]|[]]; auto|].
+      pose proof (den_prim_plain c v1 j E) as Hd. destruct v1; try discriminate; cbn [cv_atom] in Hd |- *;
+        (eexists; split; [reflexivity|]; rewrite den_feature_single_plain, Hd; reflexivity).
+    + destruct (ref_json c v1) as [j| |] eqn:E; cbn [bind]; try discriminate. intros [= <-].
+      split; [intros k v [[= <- <-]|[]]; auto|].
+      pose proof (den_ref_ref c v1 j E) as Hd. rewrite den_feature_single_ref, Hd.
+      unfold ref_json in E. destruct (cv_atom c v1) as [w| |] eqn:Ec.
+      * exists w. split; reflexivity.
+      * exfalso. destruct v1; cbn [ref_id cv_atom bind] in *; try discriminate;
+          [destruct (hget (c_heap c) o); discriminate|destruct (find_sofa c n); discriminate].
+      * exfalso. destruct v1; cbn [ref_id cv_atom bind] in *; try discriminate;
+          [destruct (hget (c_heap c) o); discriminate|destruct (find_sofa c n); discriminate].
+Qed.
+
+(* what the document says about a feature, in document units: null when the slot is None *)
+Definition doc_cval (c : cas) (s : schema) (t : tname) (f : fsobj) (fd : fdecl) : res cval :=
+  do v1 <- doc_val c s t f fd (slot f (fd_name fd)) ;; cv_atom c v1.
+
+Lemma enc_feature_den c s t f fd ms : enc_feature c s t f fd = Ok ms ->
+  keyset_only ms (fd_xname fd) /\ exists w, den_feature ms fd = Ok (fd_xname fd, w) /\
+    (is_vnone (slot f (fd_name fd)) = true /\ w = CNull \/ doc_cval c s t f fd = Ok w).
+Proof.
+  unfold enc_feature, doc_cval. destruct (is_vnone (slot f (fd_name fd))) eqn:En.
+  - intros [= <-]. split; [intros k v []|]. exists CNull. split; [reflexivity|left; split; reflexivity].
+  - destruct (doc_val c s t f fd (slot f (fd_name fd))) as [v1| |] eqn:Ed; cbn [bind]; try discriminate.
+    intros H. assert (Hn1 : is_vnone v1 = false).
+    { unfold doc_val in Ed. destruct (isa s t T_ANNOTATION && is_offset_name (fd_xname fd)).
+      - destruct (slot f "sofa"); try discriminate. destruct (find_sofa c n); try discriminate. inversion Ed.
+        destruct (slot f (fd_name fd)); try discriminate; reflexivity.
+      - inversion Ed; subst v1. exact En. }
+    destruct (enc_value_den c s fd v1 ms Hn1 H) as (Hk & w & Hw & Hd). split; [exact Hk|].
+    exists w. split; [exact Hd|right; exact Hw].
+Qed.
+
+(* lookups of a feature's three keys in the member list of the whole structure see only that feature's members *)
+Lemma keyset_other_none ms x y k : keyset_only ms y -> x <> y -> name_okb x = true -> name_okb y = true ->
+  (k = x \/ k = refkey x \/ k = numkey x) -> alookup k ms = None.
+Proof.
+  intros Hk Hxy Hx Hy Hkx. apply alookup_notin. intros k' v Hin E. subst k'.
+  destruct (name_ok_first x Hx y) as (A1 & A2 & _). destruct (name_ok_first y Hy x) as (B1 & B2 & _).
+  destruct (Hk _ _ Hin) as [E|[E|E]]; destruct Hkx as [F|[F|F]]; rewrite E in F; clear E.
+  - apply Hxy. symmetry. exact F.
+  - exact (proj1 (name_ok_first y Hy x) F).
+  - exact (proj1 (proj2 (name_ok_first y Hy x)) F).
+  - exact (proj1 (name_ok_first x Hx y) (eq_sym F)).
+  - apply Hxy. injection F as F. symmetry. exact F.
+  - discriminate F.
+  - exact (proj1 (proj2 (name_ok_first x Hx y)) (eq_sym F)).
+  - discriminate F.
+  - apply Hxy. injection F as F. symmetry. exact F.
+Qed.
+
+Lemma concat_lookup c s t f : forall feats mss, Forall2 (fun fd ms => enc_feature c s t f fd = Ok ms) feats mss ->
+  NoDup (map fd_xname feats) -> (forall fd, In fd feats -> name_okb (fd_xname fd) = true) ->
+  forall fd k, name_okb (fd_xname fd) = true ->
+    (k = fd_xname fd \/ k = refkey (fd_xname fd) \/ k = numkey (fd_xname fd)) ->
+    (~ In (fd_xname fd) (map fd_xname feats) -> alookup k (List.concat mss) = None) /\
+    (forall ms, In fd feats -> enc_feature c s t f fd = Ok ms -> alookup k (List.concat mss) = alookup k ms).
+Proof.
+  induction 1 as [|fd0 ms0 feats mss H0 _ IH]; intros Hnd Hok fd k Hx Hk.
+  - split; [reflexivity|intros ms []].
+  - cbn [map] in Hnd. inversion Hnd as [|? ? Hnotin Hnd']; subst.
+    assert (Hok' : forall fd, In fd feats -> name_okb (fd_xname fd) = true) by (intros g Hg; apply Hok; right; exact Hg).
+    destruct (IH Hnd' Hok' fd k Hx Hk) as [IHn IHi]. cbn [List.concat]. rewrite alookup_app.
+    destruct (enc_feature_den c s t f fd0 ms0 H0) as (Hk0 & _).
+    split.
+    + intros Hni. cbn [map In] in Hni.
+      rewrite (keyset_other_none ms0 (fd_xname fd) (fd_xname fd0) k Hk0); [apply IHn; tauto| intros E; apply Hni; left; congruence
+                                                                        | exact Hx | apply Hok; left; reflexivity | exact Hk].
+    + intros ms [<-|Hin] Hms.
+      * rewrite H0 in Hms. inversion Hms; subst ms. destruct (alookup k ms0); [reflexivity|]. apply IHn. exact Hnotin.
+      * rewrite (keyset_other_none ms0 (fd_xname fd) (fd_xname fd0) k Hk0); [apply IHi; assumption| |exact Hx|apply Hok; left; reflexivity|exact Hk].
+        intros E. apply Hnotin. rewrite <- E. apply in_map. exact Hin.
+Qed.
+
+Lemma den_feature_agree m ms fd :
+  alookup (refkey (fd_xname fd)) m = alookup (refkey (fd_xname fd)) ms ->
+  alookup (numkey (fd_xname fd)) m = alookup (numkey (fd_xname fd)) ms ->
+  alookup (fd_xname fd) m = alookup (fd_xname fd) ms -> den_feature m fd = den_feature ms fd.
+Proof. intros A B C. unfold den_feature. rewrite A, B, C. reflexivity. Qed.
+
+(* all features of a structure, read from its member list *)
+Lemma den_features_written c s t f i feats mss :
+  mapM (enc_feature c s t f) feats = Ok mss ->
+  NoDup (map fd_xname feats) -> (forall fd, In fd feats -> name_okb (fd_xname fd) = true) ->
+  exists W : fdecl -> cval,
+    mapM (den_feature ([(K_ID, i); (K_TYPE, JStr t)] ++ List.concat mss)) feats = Ok (map (fun fd => (fd_xname fd, W fd)) feats) /\
+    forall fd, In fd feats -> (is_vnone (slot f (fd_name fd)) = true /\ W fd = CNull) \/ doc_cval c s t f fd = Ok (W fd).
+Proof.
+  intros Hm Hnd Hok. pose proof (mapM_Forall2 _ _ _ Hm) as F2.
+  assert (Hex : forall fd, In fd feats -> exists w, den_feature ([(K_ID, i); (K_TYPE, JStr t)] ++ List.concat mss) fd = Ok (fd_xname fd, w) /\
+            (is_vnone (slot f (fd_name fd)) = true /\ w = CNull \/ doc_cval c s t f fd = Ok w)).
+  { intros fd Hin. destruct (Forall2_In_l _ _ _ fd F2 Hin) as (ms & _ & Hms).
+    destruct (enc_feature_den c s t f fd ms Hms) as (_ & w & Hd & Hw). exists w. split; [|exact Hw].
+    rewrite <- Hd. pose proof (Hok fd Hin) as Hx.
+    assert (Hbase : forall k, (k = fd_xname fd \/ k = refkey (fd_xname fd) \/ k = numkey (fd_xname fd)) ->
+              alookup k ([(K_ID, i); (K_TYPE, JStr t)] ++ List.concat mss) = alookup k ms).
+    { intros k Hk. cbn [app alookup].
+      assert (k <> K_ID /\ k <> K_TYPE) as [N1 N2].
+      { destruct (name_ok_first _ Hx "") as (_ & _ & A & B & _). destruct Hk as [Hk|[Hk|Hk]]; subst k; split; try assumption; discriminate. }
+      apply String.eqb_neq in N1, N2. rewrite N1, N2.
+      exact (proj2 (concat_lookup c s t f feats mss F2 Hnd Hok fd k Hx Hk) ms Hin Hms). }
+    apply den_feature_agree; apply Hbase; auto. }
+  (* choose W by the decoded value *)
+  exists (fun fd => match den_feature ([(K_ID, i); (K_TYPE, JStr t)] ++ List.concat mss) fd with Ok (_, w) => w | _ => CNull end).
+  split.
+  - apply mapM_ok_map. intros fd Hin. destruct (Hex fd Hin) as (w & Hd & _). rewrite Hd. reflexivity.
+  - intros fd Hin. destruct (Hex fd Hin) as (w & Hd & Hw). rewrite Hd. exact Hw.
+Qed.
+
+(* ---- one structure ---- *)
+
+Lemma xfind_in feats x fd : xfind feats x = Some fd -> In fd feats /\ fd_xname fd = x.
+Proof.
+  unfold xfind. intros H. apply find_some in H. destruct H as [A B]. apply String.eqb_eq in B. auto.
+Qed.
+Lemma xfind_unique feats fd : NoDup (map fd_xname feats) -> In fd feats -> xfind feats (fd_xname fd) = Some fd.
+Proof.
+  unfold xfind. induction feats as [|g r IH]; intros Hnd Hin; [destruct Hin|]. cbn [find map] in *.
+  inversion Hnd as [|? ? Hni Hnd']; subst. destruct (String.eqb (fd_xname g) (fd_xname fd)) eqn:E.
+  - destruct Hin as [->|Hin]; [reflexivity|]. apply String.eqb_eq in E. exfalso. apply Hni. rewrite E. apply in_map. exact Hin.
+  - destruct Hin as [->|Hin]; [rewrite String.eqb_refl in E; discriminate|]. apply IH; assumption.
+Qed.
+Lemma alookup_by_xname {V} (W : fdecl -> V) feats x :
+  alookup x (map (fun fd => (fd_xname fd, W fd)) feats) = option_map W (xfind feats x).
+Proof.
+  unfold xfind. induction feats as [|g r IH]; [reflexivity|]. cbn [map alookup find].
+  rewrite String.eqb_sym. destruct (String.eqb (fd_xname g) x); [reflexivity|exact IH].
+Qed.
+
+Lemma snodup_NoDup l : snodup l = true -> NoDup l.
+Proof.
+  induction l as [|x r IH]; cbn [snodup]; intros H; [constructor|]. apply andb_true_iff in H. destruct H as [A B].
+  constructor; [|apply IH; exact B]. intros Hin. apply memb_In in Hin. rewrite Hin in A. discriminate.
+Qed.
+
+Lemma strip_none_norm t : match strip_brackets t with Some _ => false | None => true end = true -> norm_tname t = t.
+Proof. unfold norm_tname. destruct (strip_brackets t); [discriminate|reflexivity]. Qed.
+
+Lemma cv_json_atom c v w : cv_atom c v = Ok w -> cv_json c v = Ok w.
+Proof. destruct v; cbn [cv_json]; auto. cbn [cv_atom]. discriminate. Qed.
+
+Lemma conv_p2e txt i : (0 <= i <= match txt with Some t => Z.of_nat (List.length t) | None => 0 end) ->
+  conv_off txt (CInt (p2e_text txt i)) = CInt i.
+Proof.
+  intros H. destruct txt as [t|]; cbn [conv_off p2e_text]; [|reflexivity].
+  rewrite OffsetsProofs.ext2py_py2ext; [reflexivity|exact H].
+Qed.
+
+(* the sofa table of the document resolves every sofa of the CAS to its own text *)
+Definition stab_ok (c : cas) (stab : list (xid * option text)) : Prop :=
+  forall n sf, find_sofa c n = Some sf -> zlookup (s_xid sf) stab = Some (s_text sf).
+
+Lemma den_fs_written L s c f i m stab :
+  lex_ok L -> o_id f = Some i -> obj_okb s c f = true -> stab_ok c stab -> enc_fs L s c f = Ok m ->
+  exists cf, canon_fs s c f = Ok cf /\ den_fs L s stab (i, m) = Ok (i, cf).
+Proof.
+  intros HL Hid Hok Hst Henc. unfold obj_okb in Hok. apply andb_true_iff in Hok. destruct Hok as [Htn Hok].
+  unfold tname_okb in Htn. apply andb_true_iff in Htn. destruct Htn as [_ Hsb].
+  unfold enc_fs in Henc. unfold canon_fs, den_fs. set (t := o_type f) in *.
+  destruct (sch_find s t) as [ti|] eqn:Eti; [|discriminate].
+  assert (Hty : forall rest, e_type (i, (K_ID, id_json f) :: (K_TYPE, JStr t) :: rest) = Some t) by reflexivity.
+  destruct (is_array_name t) eqn:Earr.
+  - (* arrays *)
+    destruct (slot f "elements") as [| | | | | |l|] eqn:Esl; try discriminate.
+    destruct (nonempty_list (VList l)) as [l'|] eqn:Enl.
+    + destruct l as [|x r]; [discriminate|]. inversion Enl; subst l'.
+      destruct (enc_elements L c t (x :: r) ) as [j| |] eqn:Ee; cbn [bind] in Henc; try discriminate. inversion Henc; subst m.
+      cbn [app snd]. rewrite Hty. rewrite (strip_none_norm t Hsb), Eti, Earr.
+      change (alookup K_ELEMENTS [(K_ID, id_json f); (K_TYPE, JStr t); (K_ELEMENTS, j)]) with (Some j).
+      pose proof (elements_roundtrip L c t (x :: r) j HL) as Hr.
+      assert (Hfl : String.eqb t T_FLOAT_ARRAY || String.eqb t T_DOUBLE_ARRAY = true ->
+                    forallb (fun v => match v with VFlt _ => true | _ => false end) (x :: r) = true).
+      { intros Hf. rewrite Hf in Hok. exact Hok. }
+      destruct (Hr ltac:(discriminate) Hfl Ee) as (els & Ed & Ecv). rewrite Ed, Ecv.
+      cbn [bind fst]. eexists. split; reflexivity.
+    + destruct l; [|discriminate]. inversion Henc; subst m. cbn [snd]. rewrite Hty.
+      rewrite (strip_none_norm t Hsb), Eti, Earr. cbn [alookup]. cbn [den_elements bind cv_json mapM fst].
+      eexists. split; reflexivity.
+  - (* other types *)
+    destruct (mapM (enc_feature c s t f) (ti_feats ti)) as [mss| |] eqn:Em; cbn [bind] in Henc; try discriminate.
+    inversion Henc; subst m. clear Henc.
+    apply andb_true_iff in Hok. destruct Hok as [Hok Hann]. apply andb_true_iff in Hok. destruct Hok as [Hnames Hnd].
+    rewrite forallb_forall in Hnames. apply snodup_NoDup in Hnd.
+    destruct (den_features_written c s t f (id_json f) (ti_feats ti) mss Em Hnd Hnames) as (W & HW & HWv).
+    cbn [snd]. rewrite (Hty (List.concat mss)). rewrite (strip_none_norm t Hsb), Eti, Earr.
+    change ((K_ID, id_json f) :: (K_TYPE, JStr t) :: List.concat mss) with ([(K_ID, id_json f); (K_TYPE, JStr t)] ++ List.concat mss).
+    rewrite HW. cbn [bind].
+    (* canonical values *)
+    set (CW := fun fd => if isa s t T_ANNOTATION && is_offset_name (fd_xname fd)
+                         then match slot f (fd_name fd) with VInt z => CInt z | _ => W fd end else W fd).
+    assert (Hcanon : forall fd, In fd (ti_feats ti) ->
+              (isa s t T_ANNOTATION && is_offset_name (fd_xname fd) = true ->
+                 match slot f (fd_name fd) with VNone | VInt _ => True | _ => False end) ->
+              cv_json c (slot f (fd_name fd)) = Ok (CW fd)).
+    { intros fd Hin Hoff. unfold CW. destruct (HWv fd Hin) as [[Hn Hw]|Hd].
+      - destruct (slot f (fd_name fd)); try discriminate. rewrite Hw. destruct (isa s t T_ANNOTATION && is_offset_name (fd_xname fd)); reflexivity.
+      - unfold doc_cval, doc_val in Hd. destruct (isa s t T_ANNOTATION && is_offset_name (fd_xname fd)) eqn:Eo.
+        + specialize (Hoff eq_refl). destruct (slot f "sofa"); try discriminate. destruct (find_sofa c n); try discriminate.
+          cbn [bind] in Hd. destruct (slot f (fd_name fd)); try contradiction; [apply cv_json_atom; exact Hd|reflexivity].
+        + cbn [bind] in Hd. apply cv_json_atom. exact Hd. }
+    destruct (isa s t T_ANNOTATION) eqn:Eann.
+    + (* annotation: begin/end come back through the sofa's text *)
+      destruct (slot f "sofa") as [| | | | | | |n] eqn:Eso; try discriminate.
+      destruct (find_sofa c n) as [sf|] eqn:Efs; [|discriminate].
+      apply andb_true_iff in Hann. destruct Hann as [Hoffs Hx]. apply andb_true_iff in Hoffs. destruct Hoffs as [Hob Hoe].
+      destruct (xfind (ti_feats ti) "begin") as [fb|] eqn:Eb; [|discriminate].
+      destruct (xfind (ti_feats ti) "end") as [fe|] eqn:Ee; [|discriminate].
+      destruct (xfind (ti_feats ti) "sofa") as [fso|] eqn:Es; [|discriminate].
+      rewrite !andb_true_iff in Hx. destruct Hx as (((Hnb & Hne) & Hns) & Hnp).
+      apply String.eqb_eq in Hnb, Hne, Hns. apply negb_true_iff in Hnp.
+      destruct (xfind_in _ _ _ Eb) as [Hbin Hbx]. destruct (xfind_in _ _ _ Ee) as [Hein Hex]. destruct (xfind_in _ _ _ Es) as [Hsin Hsx].
+      (* the sofa feature is the id of the annotation's sofa *)
+      assert (Hsofa : W fso = CRef (s_xid sf)).
+      { destruct (HWv fso Hsin) as [[Hn _]|Hd]; [rewrite Hns, Eso in Hn; discriminate|].
+        unfold doc_cval, doc_val in Hd. rewrite Hsx in Hd. cbn [is_offset_name String.eqb Ascii.eqb Bool.eqb orb andb] in Hd.
+        rewrite andb_false_r in Hd. cbn [bind] in Hd. rewrite Hns, Eso in Hd. cbn [cv_atom ref_id] in Hd. rewrite Efs in Hd. cbn [bind] in Hd.
+        inversion Hd. reflexivity. }
+      rewrite (alookup_by_xname W (ti_feats ti) "sofa"), Es. cbn [option_map]. rewrite Hsofa, (Hst n sf Efs). cbn [bind].
+      assert (Hoffname : forall fd, In fd (ti_feats ti) -> is_offset_name (fd_xname fd) = true ->
+                match slot f (fd_name fd) with
+                | VNone => True
+                | VInt z => 0 <= z <= match s_text sf with Some tx => Z.of_nat (List.length tx) | None => 0 end
+                | _ => False end).
+      { intros fd Hin Hon. unfold is_offset_name in Hon. apply orb_true_iff in Hon.
+        assert (Hcase : fd = fb \/ fd = fe).
+        { destruct Hon as [E|E]; apply String.eqb_eq in E; pose proof (xfind_unique _ _ Hnd Hin) as Hu; rewrite E in Hu;
+            [left; rewrite Eb in Hu|right; rewrite Ee in Hu]; inversion Hu; reflexivity. }
+        destruct Hcase as [->| ->]; [rewrite Hnb; destruct (slot f "begin"); try discriminate; [exact I|lia]
+                                   |rewrite Hne; destruct (slot f "end"); try discriminate; [exact I|lia]]. }
+      assert (Hmap : mapM (fun fd => do v <- cv_json c (slot f (fd_name fd)) ;; Ok (fd_xname fd, v)) (ti_feats ti)
+                     = Ok (map (fun fd => (fd_xname fd, CW fd)) (ti_feats ti))).
+      { apply mapM_ok_map. intros fd Hin. rewrite (Hcanon fd Hin); [reflexivity|].
+        cbn [andb]. intros Hon. pose proof (Hoffname fd Hin Hon) as Hv. destruct (slot f (fd_name fd)); auto. }
+      rewrite Hmap. cbn [bind fst]. eexists. split; [reflexivity|]. do 4 f_equal.
+      try rewrite map_map. apply map_ext_in. intros fd Hin. cbn [fst snd]. unfold CW. cbn [andb].
+      destruct (is_offset_name (fd_xname fd)) eqn:Eon; [|reflexivity]. f_equal.
+      pose proof (Hoffname fd Hin Eon) as Hv.
+      destruct (HWv fd Hin) as [[Hn Hw]|Hd].
+      * destruct (slot f (fd_name fd)); try discriminate. rewrite Hw. reflexivity.
+      * unfold doc_cval, doc_val in Hd. rewrite Eann, Eon, Eso, Efs in Hd. cbn [andb bind] in Hd.
+        destruct (slot f (fd_name fd)) eqn:Ev; try contradiction.
+        -- cbn [cv_atom] in Hd. inversion Hd. reflexivity.
+        -- cbn [cv_atom] in Hd. inversion Hd. apply conv_p2e. exact Hv.
+    + assert (Hmap : mapM (fun fd => do v <- cv_json c (slot f (fd_name fd)) ;; Ok (fd_xname fd, v)) (ti_feats ti)
+                     = Ok (map (fun fd => (fd_xname fd, CW fd)) (ti_feats ti))).
+      { apply mapM_ok_map. intros fd Hin. rewrite (Hcanon fd Hin); [reflexivity|]. cbn [andb]. discriminate. }
+      rewrite Hmap. cbn [bind fst]. eexists. split; reflexivity.
+Qed.
